@@ -123,7 +123,7 @@ func suiteSenAgree(tier string, seed uint64) *Report {
 	// reserved words), numbers, comments, both quote kinds
 	vals := []string{"abc", "true", "false", "null", `"true"`, `"null"`, `"false"`, `"true"`, `"null"`, `"false"`, `'true'`,
 		`"a b"`, `"a\tb"`, `"é"`, `"😀"`, "\"\xc3\xa9\"", `""`, `''`, "1", "-1", "0.5", "1e3", "-1.25e-2", "12345678901234567890", "1.0e400",
-		"a1", "x-y", "$r", "@t", "[]", "{}", "[1 2]", "{a:1}", `{"a b":true}`, "[[]]", `"12"`, `"-"`, "tru", "nul", "truex", "nullx", "a.b", "9a"}
+		"a1", "x-y", "$r", "@t", "\"a\xef\xbb\xbfb\"", "\"\xef\xbb\xbf\"", "x\xef\xbb\xbfy", "\xef\xbb\xbfz", "[]", "{}", "[1 2]", "{a:1}", `{"a b":true}`, "[[]]", `"12"`, `"-"`, "tru", "nul", "truex", "nullx", "a.b", "9a"}
 	seps := []string{" ", ",", "\n", "  ", ", ", "\t", " // c\n", "\r\n"}
 	for _, v := range vals {
 		add(v)
@@ -205,7 +205,7 @@ func suiteSenAgree(tier string, seed uint64) *Report {
 			ref := senParseOutcome(in, nil, false, multi)
 			rep.Evaluations++
 			rep.Count("sen-agree:" + ref[:1])
-			check := func(where, got string, rerun func(in []byte) string) {
+			check := func(where, got string, rerun func(in []byte) string, firstShort bool, rerunWhole func(in []byte) string) {
 				rep.Evaluations++
 				if got != ref {
 					class := ""
@@ -213,9 +213,20 @@ func suiteSenAgree(tier string, seed uint64) *Report {
 					// (no concatenation, no error): same tokenizer outcome with the + blanked, and
 					// parser and tokenizer agree on the blanked text
 					if strings.HasPrefix(where, "sen.Tokenizer") {
-						if d, changed := blankPlus(in); changed && rerun(d) == got && senParseOutcome(d, nil, false, multi) == got {
-							class = "sen-tokenizer-ignores-plus"
+						if d, changed := blankPlus(in); changed && rerun(d) == got {
+							if dref := senParseOutcome(d, nil, false, multi); dref == got {
+								class = "sen-tokenizer-ignores-plus"
+							} else if firstShort && d[0] == 0xef && rerunWhole != nil && rerunWhole(d) == dref {
+								// both recorded behaviours in one input
+								class = "sen-tokenizer-ignores-plus+bom-short-first-read"
+							}
 						}
+					}
+					// the recorded reader behaviour (see C03-bom-short-first-read): a byte order mark is looked
+					// for (and a first byte 0xEF examined) only in a first read of more than 3 bytes; exact when
+					// the same entry point gives the reference outcome once the first read is the whole text
+					if class == "" && firstShort && len(in) > 0 && in[0] == 0xef && rerunWhole != nil && rerunWhole(in) == ref {
+						class = "bom-short-first-read"
 					}
 					rep.Add(Disagreement{Case: hx(in), Where: where, Kind: "impl-law:sen-frontends", Impl: got, Spec: ref, Class: class,
 						Detail: fmt.Sprintf("%q multi=%v", s, multi)})
@@ -227,13 +238,15 @@ func suiteSenAgree(tier string, seed uint64) *Report {
 			}
 			multi := multi
 			check("sen.Tokenizer.Parse vs sen.Parser.Parse"+tag, senTokenOutcome(in, nil, false, multi),
-				func(d []byte) string { return senTokenOutcome(d, nil, false, multi) })
+				func(d []byte) string { return senTokenOutcome(d, nil, false, multi) }, false, nil)
 			for _, c := range chunkingsFor(r, len(in), tier) {
 				c := c
 				check("sen.Parser.ParseReader"+tag+" "+chunkKind(c, len(in)), senParseOutcome(in, c, true, multi),
-					func(d []byte) string { return senParseOutcome(d, c, true, multi) })
+					func(d []byte) string { return senParseOutcome(d, c, true, multi) }, len(c) > 0 && c[0] <= 3,
+					func(d []byte) string { return senParseOutcome(d, []int{}, true, multi) })
 				check("sen.Tokenizer.Load"+tag+" "+chunkKind(c, len(in)), senTokenOutcome(in, c, true, multi),
-					func(d []byte) string { return senTokenOutcome(d, c, true, multi) })
+					func(d []byte) string { return senTokenOutcome(d, c, true, multi) }, len(c) > 0 && c[0] <= 3,
+					func(d []byte) string { return senTokenOutcome(d, []int{}, true, multi) })
 			}
 		}
 	}
